@@ -1058,7 +1058,10 @@ pub fn build(module: &Module<BE>, kind: Kind, l: &Lay, inp: &Inputs, rep: &mut R
             let mut xa = Source::new(sxa);
             let batch = 64usize;
             for t in 0..batch {
-                let mut pt: LWEPlaintext<Vec<u8>> = LWEPlaintext::alloc(Base2K(l.b as u32), TorusPrecision((l.size * l.b) as u32));
+                // the plaintext has as many limbs as the ciphertext, or fewer (a message on the top limbs only: the noise limb then
+                // lies past the plaintext)
+                let pt_size = if t % 2 == 0 { l.size } else { 1 + (prng.next_u64() as usize) % l.size };
+                let mut pt: LWEPlaintext<Vec<u8>> = LWEPlaintext::alloc(Base2K(l.b as u32), TorusPrecision((pt_size * l.b) as u32));
                 fill_message(pt.data_mut(), l.b, Msg::Uniform, &mut prng);
                 let mut ct: LWE<Vec<u8>> = LWE::alloc_from_infos(&layout);
                 // the two streams advance across the batch: a generous window is used here (exact windows are C01's job; a
@@ -1066,7 +1069,7 @@ pub fn build(module: &Module<BE>, kind: Kind, l: &Lay, inp: &Inputs, rep: &mut R
                 let mut sw = roomy_scratch(need);
                 guarded(|| module.lwe_encrypt_sk(&mut ct, &pt, &lk.sk, &enc, &mut xe, &mut xa, sw.scratch()))?;
                 let mut c = Ct::from_znx(ct.data(), l.b);
-                for j in 0..c.size {
+                for j in 0..c.size.min(pt_size) {
                     c.d[j * c.n] -= pt.data().at(0, j)[0];
                 }
                 obj.cells.push(Cell { tag: (0, t, 0), ct: c, sec: 0, m: None, seed: None });
